@@ -21,6 +21,9 @@ type dtVal struct {
 	op                                 string
 	wordNil, wordEmpty                 bool
 	set, null, arith, nounset, special bool
+	// which of the two predicates makes the name "special": decided per sub-case, so
+	// that `isSp(x) || isPos(x)` and its De Morgan form evaluate alike
+	isSp, isPos bool
 }
 
 func (v dtVal) String() string {
@@ -147,11 +150,11 @@ func (d *dt1) eval(e ast.Expr, v dtVal) tri {
 		}
 	case *ast.CallExpr:
 		name := calleeName(d.info, e)
-		if strings.HasSuffix(name, ".isSpParam") || strings.HasSuffix(name, ".isPosParam") {
-			if !v.special {
-				return triF
-			}
-			return triU
+		if strings.HasSuffix(name, ".isSpParam") {
+			return b2t(v.special && v.isSp)
+		}
+		if strings.HasSuffix(name, ".isPosParam") {
+			return b2t(v.special && v.isPos)
 		}
 	case *ast.BinaryExpr:
 		switch e.Op {
@@ -165,10 +168,6 @@ func (d *dt1) eval(e ast.Expr, v dtVal) tri {
 			}
 			return triU
 		case token.LOR:
-			s := exprStr(e)
-			if strings.Contains(s, "isSpParam") && strings.Contains(s, "isPosParam") && !strings.Contains(s, "&&") {
-				return b2t(v.special)
-			}
 			a, b := d.eval(e.X, v), d.eval(e.Y, v)
 			if a == triT || b == triT {
 				return triT
@@ -209,6 +208,9 @@ func (d *dt1) events(b *cfg.Block) (ev []string, term string) {
 					ev = append(ev, "SET")
 				case fo != nil && d.helperOf(fo, m) != nil:
 					ev = append(ev, d.summary(d.helperOf(fo, m), m)...)
+				case fo != nil && d.joinsValues(d.c.P.FuncOf(fo)):
+					// the substitution of the parameter's values, moved into a helper
+					ev = append(ev, "PARAM")
 				case strings.HasSuffix(name, "(*field).join") && len(m.Args) == 2:
 					a := ast.Unparen(m.Args[0])
 					switch {
@@ -325,6 +327,43 @@ func (d *dt1) events(b *cfg.Block) (ev []string, term string) {
 		}
 	}
 	return
+}
+
+// joinsValues: h is a private helper whose body ranges over one of its slice
+// parameters and joins each element to the field list (the tail that used to
+// be expandParam's `Param:` label).
+func (d *dt1) joinsValues(h *core.Func) bool {
+	if h == nil || h == d.f || h.Pkg != d.f.Pkg || h.Body == nil || h.Decl == nil || h.Obj == nil || h.Obj.Exported() || h.Type.Params == nil {
+		return false
+	}
+	hi := h.Info()
+	params := map[types.Object]bool{}
+	for _, fld := range h.Type.Params.List {
+		for _, nm := range fld.Names {
+			params[hi.Defs[nm]] = true
+		}
+	}
+	found := false
+	h.OwnNodes(func(n ast.Node) bool {
+		rs, ok := n.(*ast.RangeStmt)
+		if !ok || identOf(rs.Value) == nil {
+			return true
+		}
+		xid, ok := ast.Unparen(rs.X).(*ast.Ident)
+		if !ok || !params[hi.Uses[xid]] {
+			return true
+		}
+		ast.Inspect(rs.Body, func(m ast.Node) bool {
+			if call, ok := m.(*ast.CallExpr); ok && strings.HasSuffix(calleeName(hi, call), "(*field).join") && len(call.Args) == 2 {
+				if id, ok := ast.Unparen(call.Args[0]).(*ast.Ident); ok && hi.Uses[id] != nil && hi.Uses[id] == hi.Defs[identOf(rs.Value)] {
+					found = true
+				}
+			}
+			return true
+		})
+		return true
+	})
+	return found
 }
 
 // helperOf returns the private helper of expandParam that a call hands the
@@ -615,55 +654,62 @@ func ruleDT1() Rule {
 										}
 										v := dtVal{op: op, wordNil: wn, wordEmpty: we, set: st[0], null: st[1], nounset: nu, special: sp, arith: ar}
 										outs := map[string]bool{}
-										seen := map[key]bool{}
-										var dfs func(b *cfg.Block, ev map[string]bool)
-										dfs = func(b *cfg.Block, ev map[string]bool) {
-											k := key{b, evKey(ev)}
-											if seen[k] {
-												return
-											}
-											seen[k] = true
-											evs, term := d.events(b)
-											ev2 := map[string]bool{}
-											for e := range ev {
-												ev2[e] = true
-											}
-											for _, e := range evs {
-												ev2[e] = true
-											}
-											if term != "" {
-												if term != "PROPAGATE" {
-													outs[evKey(ev2)+"→"+term] = true
-												}
-												return
-											}
-											var cond ast.Expr
-											if len(b.Succs) == 2 && len(b.Nodes) > 0 && b.Succs[0].Kind != cfg.KindRangeBody && b.Succs[0].Kind != cfg.KindSelectCaseBody {
-												cond, _ = b.Nodes[len(b.Nodes)-1].(ast.Expr)
-											}
-											if cond != nil {
-												var r tri
-												if tag, ok := d.caseTag[cond]; ok {
-													r = d.cmp(tag, cond, v)
-												} else {
-													r = d.eval(cond, v)
-												}
-												switch r {
-												case triT:
-													dfs(b.Succs[0], ev2)
-												case triF:
-													dfs(b.Succs[1], ev2)
-												default:
-													dfs(b.Succs[0], ev2)
-													dfs(b.Succs[1], ev2)
-												}
-												return
-											}
-											for _, s := range b.Succs {
-												dfs(s, ev2)
-											}
+										subcases := [][2]bool{{false, false}}
+										if sp {
+											subcases = [][2]bool{{true, false}, {false, true}}
 										}
-										dfs(g.Blocks[0], map[string]bool{})
+										for _, sc := range subcases {
+											v.isSp, v.isPos = sc[0], sc[1]
+											seen := map[key]bool{}
+											var dfs func(b *cfg.Block, ev map[string]bool)
+											dfs = func(b *cfg.Block, ev map[string]bool) {
+												k := key{b, evKey(ev)}
+												if seen[k] {
+													return
+												}
+												seen[k] = true
+												evs, term := d.events(b)
+												ev2 := map[string]bool{}
+												for e := range ev {
+													ev2[e] = true
+												}
+												for _, e := range evs {
+													ev2[e] = true
+												}
+												if term != "" {
+													if term != "PROPAGATE" {
+														outs[evKey(ev2)+"→"+term] = true
+													}
+													return
+												}
+												var cond ast.Expr
+												if len(b.Succs) == 2 && len(b.Nodes) > 0 && b.Succs[0].Kind != cfg.KindRangeBody && b.Succs[0].Kind != cfg.KindSelectCaseBody {
+													cond, _ = b.Nodes[len(b.Nodes)-1].(ast.Expr)
+												}
+												if cond != nil {
+													var r tri
+													if tag, ok := d.caseTag[cond]; ok {
+														r = d.cmp(tag, cond, v)
+													} else {
+														r = d.eval(cond, v)
+													}
+													switch r {
+													case triT:
+														dfs(b.Succs[0], ev2)
+													case triF:
+														dfs(b.Succs[1], ev2)
+													default:
+														dfs(b.Succs[0], ev2)
+														dfs(b.Succs[1], ev2)
+													}
+													return
+												}
+												for _, s := range b.Succs {
+													dfs(s, ev2)
+												}
+											}
+											dfs(g.Blocks[0], map[string]bool{})
+										}
 										var got []string
 										for o := range outs {
 											got = append(got, o)
